@@ -461,6 +461,63 @@ pub fn trace_json(opts: &Opts, trace: &[Ev]) -> serde_json::Value {
     })
 }
 
+pub fn rom_char(c: char) -> Option<&'static str> {
+    Some(match c {
+        '\u{0985}' => "o", '\u{0986}' => "a", '\u{0987}' => "i", '\u{0988}' => "i", '\u{0989}' => "u", '\u{098A}' => "u", '\u{098B}' => "rri",
+        '\u{098F}' => "e", '\u{0990}' => "oi", '\u{0993}' => "o", '\u{0994}' => "ou",
+        '\u{0995}' => "k", '\u{0996}' => "kh", '\u{0997}' => "g", '\u{0998}' => "gh", '\u{0999}' => "ng", '\u{099A}' => "c", '\u{099B}' => "ch",
+        '\u{099C}' => "j", '\u{099D}' => "jh", '\u{099E}' => "n", '\u{099F}' => "t", '\u{09A0}' => "th", '\u{09A1}' => "d", '\u{09A2}' => "dh",
+        '\u{09A3}' => "n", '\u{09A4}' => "t", '\u{09A5}' => "th", '\u{09A6}' => "d", '\u{09A7}' => "dh", '\u{09A8}' => "n", '\u{09AA}' => "p",
+        '\u{09AB}' => "f", '\u{09AC}' => "b", '\u{09AD}' => "v", '\u{09AE}' => "m", '\u{09AF}' => "z", '\u{09B0}' => "r", '\u{09B2}' => "l",
+        '\u{09B6}' => "sh", '\u{09B7}' => "sh", '\u{09B8}' => "s", '\u{09B9}' => "h", '\u{09DC}' => "r", '\u{09DD}' => "rh", '\u{09DF}' => "y",
+        '\u{09CE}' => "t", '\u{0982}' => "ng", '\u{0983}' => "h", '\u{0981}' => "",
+        '\u{09BE}' => "a", '\u{09BF}' => "i", '\u{09C0}' => "i", '\u{09C1}' => "u", '\u{09C2}' => "u", '\u{09C3}' => "rri", '\u{09C7}' => "e",
+        '\u{09C8}' => "oi", '\u{09CB}' => "o", '\u{09CC}' => "ou", '\u{09CD}' => "",
+        _ => return None,
+    })
+}
+
+/// A Latin spelling under which `word` is a direct dictionary candidate (confirmed by the independent oracle), or
+/// None.  First the rough inverse of the Avro table without inherent vowels; if the oracle does not confirm it, an
+/// `o` is tried at every subset of the letter boundaries (shortest additions first, at most 512 variants).
+pub fn romanise_validated(word: &str) -> Option<String> {
+    let toks: Vec<&'static str> = word.chars().map(rom_char).collect::<Option<Vec<_>>>()?;
+    let toks: Vec<&'static str> = toks.into_iter().filter(|t| !t.is_empty()).collect();
+    if toks.is_empty() || toks.len() > 14 {
+        return None;
+    }
+    let gaps = toks.len() - 1;
+    let mut masks: Vec<u32> = (0..(1u32 << gaps.min(9))).collect();
+    masks.sort_by_key(|m| m.count_ones());
+    for m in masks {
+        let mut sp = String::new();
+        for (i, t) in toks.iter().enumerate() {
+            sp.push_str(t);
+            if i < gaps && i < 9 && m & (1 << i) != 0 {
+                sp.push('o');
+            }
+        }
+        if crate::phon::is_direct_dict(&sp, word) {
+            return Some(sp);
+        }
+    }
+    None
+}
+
+/// Dictionary words that the data lists more than once inside one section (the engine must still show them once).
+pub fn twice_listed_words() -> Vec<String> {
+    let mut out = vec![];
+    for (_, words) in &model::data().sections {
+        let mut seen = std::collections::HashSet::new();
+        for w in words {
+            if !seen.insert(w) && !out.contains(w) {
+                out.push(w.clone());
+            }
+        }
+    }
+    out
+}
+
 /// Dictionary-guided spellings: short dictionary words romanised with a rough inverse of the Avro table
 /// (no inherent vowels), kept only if the independent oracle confirms that the word is a direct
 /// candidate of the spelling (okkhor pattern match).  Up to 12 per final character, so that bases
@@ -468,21 +525,7 @@ pub fn trace_json(opts: &Opts, trace: &[Ev]) -> serde_json::Value {
 pub fn guided_bases() -> &'static Vec<(String, String)> {
     static G: OnceLock<Vec<(String, String)>> = OnceLock::new();
     G.get_or_init(|| {
-        let rom = |c: char| -> Option<&'static str> {
-            Some(match c {
-                '\u{0985}' => "o", '\u{0986}' => "a", '\u{0987}' => "i", '\u{0988}' => "i", '\u{0989}' => "u", '\u{098A}' => "u", '\u{098B}' => "rri",
-                '\u{098F}' => "e", '\u{0990}' => "oi", '\u{0993}' => "o", '\u{0994}' => "ou",
-                '\u{0995}' => "k", '\u{0996}' => "kh", '\u{0997}' => "g", '\u{0998}' => "gh", '\u{0999}' => "ng", '\u{099A}' => "c", '\u{099B}' => "ch",
-                '\u{099C}' => "j", '\u{099D}' => "jh", '\u{099E}' => "n", '\u{099F}' => "t", '\u{09A0}' => "th", '\u{09A1}' => "d", '\u{09A2}' => "dh",
-                '\u{09A3}' => "n", '\u{09A4}' => "t", '\u{09A5}' => "th", '\u{09A6}' => "d", '\u{09A7}' => "dh", '\u{09A8}' => "n", '\u{09AA}' => "p",
-                '\u{09AB}' => "f", '\u{09AC}' => "b", '\u{09AD}' => "v", '\u{09AE}' => "m", '\u{09AF}' => "z", '\u{09B0}' => "r", '\u{09B2}' => "l",
-                '\u{09B6}' => "sh", '\u{09B7}' => "sh", '\u{09B8}' => "s", '\u{09B9}' => "h", '\u{09DC}' => "r", '\u{09DD}' => "rh", '\u{09DF}' => "y",
-                '\u{09CE}' => "t", '\u{0982}' => "ng", '\u{0983}' => "h", '\u{0981}' => "",
-                '\u{09BE}' => "a", '\u{09BF}' => "i", '\u{09C0}' => "i", '\u{09C1}' => "u", '\u{09C2}' => "u", '\u{09C3}' => "rri", '\u{09C7}' => "e",
-                '\u{09C8}' => "oi", '\u{09CB}' => "o", '\u{09CC}' => "ou", '\u{09CD}' => "",
-                _ => return None,
-            })
-        };
+        let rom = rom_char;
         let mut per_final: std::collections::HashMap<char, usize> = std::collections::HashMap::new();
         let mut out = vec![];
         for w in model::data().all_words.iter().step_by(3) {
